@@ -556,6 +556,11 @@ func (a *BigInt) M__round__(digits Object) (Object, error) {
 			negative = true
 		}
 		negB := new(big.Int).Neg((*big.Int)(b))
+		// If 10**-b is more than twice the value the answer is 0, and
+		// 10**-b itself may be far too big to compute
+		if negB.Cmp(big.NewInt(int64(r.BitLen())+1)) > 0 {
+			return Int(0), nil
+		}
 		scale := new(big.Int).Exp((*big.Int)(bigInt10), negB, nil)
 		digits := new(big.Int).Mod(r, scale)
 		r.Sub(r, digits)
